@@ -28,6 +28,14 @@ class A:
 
 
 @dataclass
+class R:
+    a: int
+    b: int = 0
+    c: int = 0
+    d: int = 0
+
+
+@dataclass
 class P2:
     """a sibling class of P with the same fields"""
 
@@ -99,6 +107,6 @@ class Weird:
         return self.v == other.v
 
 
-SUPPORT_NS = {"P": P, "P2": P2, "PSub": PSub, "Q": Q, "A": A, "A2": A2, "NT": NT, "NT2": NT2, "Color": Color, "Perm": Perm, "Weird": Weird}
+SUPPORT_NS = {"R": R, "P": P, "P2": P2, "PSub": PSub, "Q": Q, "A": A, "A2": A2, "NT": NT, "NT2": NT2, "Color": Color, "Perm": Perm, "Weird": Weird}
 if Basket is not None:
     SUPPORT_NS.update({"Basket": Basket, "basket_mut": basket_mut})
